@@ -61,28 +61,33 @@ func runLenClock(c *core.Ctx) {
 		g := e.Graph(fn)
 		tk := an.TypeKey(t)
 		// the merge loop: a range statement whose body folds GetVClock() results with Merge
-		var loop *ast.RangeStmt
+		var loop ast.Stmt
+		var loopX ast.Expr
 		var acc types.Object
 		ast.Inspect(fn.Body(), func(n ast.Node) bool {
-			rs, ok := n.(*ast.RangeStmt)
-			if !ok || loop != nil {
+			st, isStmt := n.(ast.Stmt)
+			if !isStmt || loop != nil {
+				return true
+			}
+			body, x, isLoop := perElementLoop(info, st, func(ast.Expr) bool { return true })
+			if !isLoop {
 				return true
 			}
 			gets := false
 			var merged types.Object
-			ast.Inspect(rs.Body, func(m ast.Node) bool {
-				switch x := m.(type) {
+			ast.Inspect(body, func(m ast.Node) bool {
+				switch x2 := m.(type) {
 				case *ast.CallExpr:
-					if f := an.CalleeFunc(info, x); an.IsMethodNamed(f, an.PkgTLA, "Value", "GetVClock") {
-						if sel, ok := an.Unparen(x.Fun).(*ast.SelectorExpr); ok && rs.Value != nil && an.ObjOf(info, sel.X) == an.ObjOf(info, rs.Value) {
+					if f := an.CalleeFunc(info, x2); an.IsMethodNamed(f, an.PkgTLA, "Value", "GetVClock") {
+						if sel, ok := an.Unparen(x2.Fun).(*ast.SelectorExpr); ok && isLoopElement(info, st, x, sel.X) {
 							gets = true
 						}
 					}
 				case *ast.AssignStmt:
-					if len(x.Lhs) == 1 && len(x.Rhs) == 1 {
-						if call, ok := an.Unparen(x.Rhs[0]).(*ast.CallExpr); ok && an.IsMethodNamed(an.CalleeFunc(info, call), an.PkgTLA, "VClock", "Merge") {
-							if sel, ok := an.Unparen(call.Fun).(*ast.SelectorExpr); ok && an.ObjOf(info, sel.X) != nil && an.ObjOf(info, sel.X) == an.ObjOf(info, x.Lhs[0]) {
-								merged = an.ObjOf(info, x.Lhs[0])
+					if len(x2.Lhs) == 1 && len(x2.Rhs) == 1 {
+						if call, ok := an.Unparen(x2.Rhs[0]).(*ast.CallExpr); ok && an.IsMethodNamed(an.CalleeFunc(info, call), an.PkgTLA, "VClock", "Merge") {
+							if sel, ok := an.Unparen(call.Fun).(*ast.SelectorExpr); ok && an.ObjOf(info, sel.X) != nil && an.ObjOf(info, sel.X) == an.ObjOf(info, x2.Lhs[0]) {
+								merged = an.ObjOf(info, x2.Lhs[0])
 							}
 						}
 					}
@@ -90,7 +95,7 @@ func runLenClock(c *core.Ctx) {
 				return true
 			})
 			if gets && merged != nil {
-				loop, acc = rs, merged
+				loop, loopX, acc = st, x, merged
 			}
 			return true
 		})
@@ -98,7 +103,7 @@ func runLenClock(c *core.Ctx) {
 			c.Lost(tk+".length:clock-merge-loop", "no range loop folding GetVClock() into an accumulator with Merge")
 			continue
 		}
-		isF, fresh := currentView(g, info, fn.Body(), loop.X, g.AtomOf(loop.X), backlog)
+		isF, fresh := currentView(g, info, fn.Body(), loopX, g.AtomOf(loopX), backlog)
 		c.Check(isF && fresh, tk+".length:clock-covers-what-is-counted", loop.Pos(), "the merge loop ranges over the backlog as it is after the drain",
 			"the clock of the length view is merged over something other than the current backlog (a copy taken before the pending record was drained, or another slice): the count includes messages whose senders' clocks are missing from the value, so the trace shows the reader acting on a message before it was sent")
 		// the accumulator is the clock of the returned value, and the count is of the same current backlog
@@ -111,18 +116,32 @@ func runLenClock(c *core.Ctx) {
 			n++
 			call, ok := an.Unparen(rs.Results[0]).(*ast.CallExpr)
 			f := an.CalleeFunc(info, call)
-			if !ok || f == nil || f.Name() != "WrapCausal" || len(call.Args) != 2 || an.ObjOf(info, call.Args[1]) != acc {
+			if !ok || f == nil || f.Name() != "WrapCausal" || len(call.Args) != 2 || !flowsFrom(g, info, fn.Body(), call.Args[1], r, acc, loop, 0) {
 				okRet = false
 				continue
 			}
-			ast.Inspect(call.Args[0], func(m ast.Node) bool {
-				if lc, ok := m.(*ast.CallExpr); ok && an.IsBuiltin(info, lc, "len") && len(lc.Args) == 1 {
-					if isF2, fresh2 := currentView(g, info, fn.Body(), lc.Args[0], r, backlog); !isF2 || !fresh2 {
-						okRet = false
-					}
+			for _, part := range withLocalDefs(info, fn.Body(), call.Args[0]) {
+				at := ast.Node(r)
+				if part != call.Args[0] {
+					at = g.AtomOf(part)
 				}
-				return true
-			})
+				ast.Inspect(part, func(m ast.Node) bool {
+					if lc, ok := m.(*ast.CallExpr); ok && an.IsBuiltin(info, lc, "len") && len(lc.Args) == 1 {
+						if isF2, fresh2 := currentView(g, info, fn.Body(), lc.Args[0], at, backlog); !isF2 || !fresh2 {
+							okRet = false
+						}
+						// a count taken into a local must not be older than the last store to the field either
+						if part != call.Args[0] && an.SelectedField(info, lc.Args[0]) == backlog {
+							for _, st := range g.FindAtoms(func(a ast.Node) bool { _, is := fieldIsAssigned(info, a, backlog); return is }) {
+								if g.Search(an.Query{From: at, Target: func(y ast.Node) bool { return y == st }}).Found {
+									okRet = false
+								}
+							}
+						}
+					}
+					return true
+				})
+			}
 		}
 		c.Check(okRet && n > 0, tk+".length:returns-count-with-merged-clock", fn.Pos(), "every return wraps the count of the current backlog with the accumulated clock",
 			"length() returns its count without the accumulated clock, or counts a stale copy of the backlog")
